@@ -11,6 +11,7 @@ import Driver.Distances
 import Driver.Shmem
 import Driver.Helpers
 import Driver.Restrict
+import Driver.Conc
 open Driver
 
 def main (args : List String) : IO UInt32 := do
@@ -55,6 +56,12 @@ def main (args : List String) : IO UInt32 := do
     return 0
   | "restrict" :: rest =>
     lineLoop stdin stdout (RestrictEng.init (rest.contains "selfcheck") (rest.contains "exclude-reorder-defect") (rest.contains "include-merge-sets-defect")) RestrictEng.step
+    return 0
+  | ["readonly"] =>
+    lineLoop stdin stdout () ConcEng.stepRO
+    return 0
+  | ["conc"] =>
+    lineLoop stdin stdout () ConcEng.stepConc
     return 0
   | _ =>
     IO.eprintln "usage: hwmodel <engine>"
